@@ -68,3 +68,34 @@ pub fn h_match() {
     let pp = crate::Pattern::new(&p).unwrap();
     sym::check("C02/pattern-matcher-agrees", pp.matches(&name) == got);
 }
+
+/// the base is compared byte for byte: blanks, case and non-ASCII characters are all significant
+pub fn h_base_bytes() {
+    const A: &str = "set:aA \u{a0}é-.";
+    let b1 = sym::any_str("b1", A, 1, sym::bound(2, 3));
+    let b2 = sym::any_str("b2", A, 0, sym::bound(2, 3));
+    let op = sym::choose("op", 4);
+    let v = sym::choose("v", 3);
+    let p = format!("{}{}1", b1, c01::op_str(op));
+    let name = format!("{}-{}", b2, ["1", "0", "2"][v]);
+    let d = match Dewey::new(&p) {
+        Ok(d) => d,
+        Err(_) => {
+            sym::check("C02/base-compiles", false);
+            return;
+        }
+    };
+    let holds = match op {
+        0 => v <= 1,
+        1 => v == 1,
+        2 => v != 1,
+        _ => v == 2,
+    };
+    let same = spec::bytes_eq(b1.as_bytes(), b2.as_bytes());
+    let got = d.matches(&name);
+    sym::cover("same-base", same);
+    sym::cover("matched", got);
+    sym::check("C02/base-byte-for-byte", got == (same & holds));
+    let pp = crate::Pattern::new(&p).unwrap();
+    sym::check("C02/base-pattern-agrees", pp.matches(&name) == got);
+}
